@@ -1,6 +1,7 @@
 package main
 
 import (
+	"strings"
 	"bytes"
 	"context"
 	"encoding/json"
@@ -43,6 +44,21 @@ func c13isError(body []byte) bool {
 	return ok && string(e) != "null"
 }
 
+// c13isNotFound reports whether an error answer says "not found" (the server's CodeNotFound, or
+// the words): the one kind of error the property forbids for a key the complete file answers.
+func c13isNotFound(body []byte) bool {
+	var m struct {
+		Error *struct {
+			Code    int    `json:"code"`
+			Message string `json:"message"`
+		} `json:"error"`
+	}
+	if err := json.Unmarshal(body, &m); err != nil || m.Error == nil {
+		return false
+	}
+	return m.Error.Code == CodeNotFound || strings.Contains(strings.ToLower(m.Error.Message), "not found")
+}
+
 // c13core reduces an answer to what the property speaks about. getSignaturesForAddress documents
 // err, memo and blockTime as best-effort decorations that the handler deliberately degrades to
 // null when their source cannot be read (it logs and goes on); the looked-up answer is the list
@@ -74,6 +90,19 @@ func scenarioC13E(x *runner.X) {
 		return
 	}
 	w := pw.w
+	// half of the runs serve a second, complete epoch next to the damaged one: the server then
+	// searches the epochs for a signature instead of assuming the only one it has
+	var pw2 *pooledWorld
+	if t.Bool(0.5) {
+		id2 := t.Intn(3)
+		if c13p, _ := c13mk(id2); c13p.Epoch != w.Epoch {
+			pw2, err = getPooledWorld("c13", id2, c13mk, true)
+			if err != nil {
+				x.Failf("harness", "cannot build the pooled world", "%v", err)
+				return
+			}
+		}
+	}
 	set, err := c10setFromDir(&builtWorld{w: w, dir: pw.dir})
 	if err != nil {
 		x.Failf("harness", "file set", "%v", err)
@@ -187,6 +216,14 @@ func scenarioC13E(x *runner.X) {
 		}
 		fullMulti := NewMultiEpoch(&Options{EpochSearchConcurrency: 2})
 		fullMulti.AddEpoch(fullEp.Epoch(), fullEp)
+		if pw2 != nil {
+			other, err := loadEpoch(pw2.cfg)
+			if err != nil {
+				s.Fail("harness", "the second complete epoch does not load", err.Error())
+				return
+			}
+			fullMulti.AddEpoch(other.Epoch(), other)
+		}
 		fh := newMultiEpochHandler(fullMulti, nil)
 		for i := range qs {
 			_, qs[i].body = jsonRPC(fh, qs[i].method, qs[i].params)
@@ -207,6 +244,15 @@ func scenarioC13E(x *runner.X) {
 		multi := NewMultiEpoch(&Options{EpochSearchConcurrency: 2})
 		multi.AddEpoch(ep.Epoch(), ep)
 		defer multi.Close()
+		if pw2 != nil {
+			other, err := loadEpoch(pw2.cfg)
+			if err != nil {
+				s.Fail("harness", "the second complete epoch does not load", err.Error())
+				return
+			}
+			multi.AddEpoch(other.Epoch(), other)
+			x.Probe("c13e.two_epochs")
+		}
 		h := newMultiEpochHandler(multi, nil)
 		ostep := 1 + len(w.Objects)/150
 		for round := 0; round < rounds; round++ {
@@ -232,6 +278,10 @@ func scenarioC13E(x *runner.X) {
 			for _, q := range qs {
 				_, body := jsonRPC(h, q.method, q.params)
 				if c13isError(body) {
+					if c13isNotFound(body) {
+						x.Failf("oracle", "truncated "+role+": "+q.method+" answers 'not found' for a key the complete epoch answers", "%s; round %d: params %v\n got  %s\n full %s", desc, round, q.params, clipS(string(body), 600), clipS(string(q.body), 600))
+						return
+					}
 					x.Probe("c13e.rpc_error")
 					continue
 				}
